@@ -70,6 +70,7 @@ function run(patU,flags,subjU,start,ops,kind){
       case "replace": r={t:"s",s:E(s.replace(re,"[$&]"))}; break;
       case "replaceFn": r={t:"s",s:E(s.replace(re,function(m){ return "["+m+"]" }))}; break;
       case "search": r={t:"z",z:s.search(re)}; break;
+      case "setli": re.lastIndex=op.lim; r={t:"z",z:op.lim}; break;
       case "split": var y=(op.lim===undefined||op.lim===null)?s.split(re):s.split(re,op.lim); r={t:"l",l:y.map(E)}; break;
       }
     } catch(e){ r={t:"e",e:e.name}; }
@@ -442,6 +443,9 @@ func (t *tk) op(o Op) {
 			t.n(7)
 			t.z(int64(*o.Lim))
 		}
+	case "setli":
+		t.n(8)
+		t.z(int64(*o.Lim))
 	default:
 		t.n(0)
 	}
@@ -771,6 +775,11 @@ func runCase1(c Case) vh.Record {
 		tags["named-groups"] = true
 	}
 	tags[fmt.Sprintf("deopt:%d", c.Deopt)] = true
+	for _, o := range c.Ops {
+		if o.O == "setli" {
+			tags["op:setli"] = true
+		}
+	}
 	if c.Start > 0 && c.Start < len(c.Subj) && c.Subj[c.Start-1] >= 0xD800 && c.Subj[c.Start-1] <= 0xDBFF && c.Subj[c.Start] >= 0xDC00 && c.Subj[c.Start] <= 0xDFFF {
 		tags["start:inside-pair"] = true
 	}
@@ -1178,12 +1187,78 @@ func genRun(r *vh.Rng) Case {
 			l := r.Intn(4)
 			o.Lim = &l
 		}
+		if i > 0 && r.Chance(6) {
+			v := r.Intn(len(subj) + 2)
+			o = Op{O: "setli", Lim: &v}
+		}
 		if o.O == "split" && c.Deopt == 1 {
 			// kind 1 de-optimises the instance only: the splitter clone made by @@split would be a pristine
 			// RegExp again, so this configuration would not exercise the generic split path
 			o = Op{O: "exec"}
 		}
 		c.Ops = append(c.Ops, o)
+	}
+	return c
+}
+
+// genCacheCase: the per-object match cache of the backtracking engine under u with g/y.  A first call starts
+// INSIDE a surrogate pair and succeeds; later calls on the same object and subject (after lastIndex was put back,
+// or through search) must see the subject unchanged.  The pattern mentions the astral character itself.
+func genCacheCase(r *vh.Rng) Case {
+	astral := []rune{0x1F600, 0x10400, 0x1F601}[r.Intn(3)]
+	other := []rune{'a', 'b', 'x', 'é', 0x2603}
+	au := toUnits(string(astral))
+	var subj []uint16
+	pairAt := -1
+	n := 2 + r.Intn(4)
+	for i := 0; i < n; i++ {
+		if (pairAt < 0 && (i == n-2 || r.Chance(40))) || (pairAt >= 0 && r.Chance(25)) {
+			if pairAt < 0 {
+				pairAt = len(subj)
+			}
+			subj = append(subj, au...)
+		} else {
+			subj = append(subj, toUnits(string(other[r.Intn(len(other))]))...)
+		}
+	}
+	tail := other[r.Intn(3)]
+	subj = append(subj, uint16(tail))
+	a := string(astral)
+	t := string(tail)
+	pats := []string{a + "|" + t, "[" + a + "]|" + t, a + "?" + t, "(" + a + ")|(" + t + ")", a + "+|" + t, "[^" + a + "a]" + t + "|" + a,
+		"(?<n1>" + a + ")|" + t, a + "." + "|" + t, "\\B" + t + "|" + a, ".*?" + a + "|" + t}
+	pat := pats[r.Intn(len(pats))]
+	flags := []string{"gu", "uy", "guy", "giu", "gmu", "gsu"}[r.Intn(6)]
+	c := Case{Kind: "run", Pat: toUnits(pat), Flags: flags, Subj: subj, Start: pairAt + 1, Deopt: r.Pick(5, 3, 2)}
+	if strings.HasPrefix(pat, "(") && strings.Contains(pat, ")|(") {
+		c.NCap = 2
+	} else if strings.Contains(pat, "(?<n1>") {
+		c.NCap = 1
+		c.Names = [][2]any{{1, "n1"}}
+	} else if strings.HasPrefix(pat, "(") {
+		c.NCap = 1
+	}
+	first := []string{"exec", "test", "exec", "replace"}[r.Intn(4)]
+	c.Ops = append(c.Ops, Op{O: first})
+	nops := 1 + r.Intn(3)
+	for i := 0; i < nops; i++ {
+		switch r.Pick(4, 3, 2, 2, 1) {
+		case 0:
+			v := r.Intn(pairAt + 2)
+			c.Ops = append(c.Ops, Op{O: "setli", Lim: &v}, Op{O: []string{"exec", "test"}[r.Intn(2)]})
+		case 1:
+			c.Ops = append(c.Ops, Op{O: "search"})
+		case 2:
+			c.Ops = append(c.Ops, Op{O: "exec"})
+		case 3:
+			c.Ops = append(c.Ops, Op{O: []string{"match", "replaceFn", "matchAll"}[r.Intn(3)]})
+		default:
+			v := pairAt + 1
+			c.Ops = append(c.Ops, Op{O: "setli", Lim: &v}, Op{O: "exec"})
+		}
+	}
+	if len(c.Ops) > 6 {
+		c.Ops = c.Ops[:6]
 	}
 	return c
 }
@@ -1223,11 +1298,13 @@ func genSyntax(r *vh.Rng) Case {
 }
 
 func genCase(r *vh.Rng) Case {
-	switch r.Pick(90, 6, 4) {
+	switch r.Pick(84, 6, 4, 6) {
 	case 1:
 		return genFlags(r)
 	case 2:
 		return genSyntax(r)
+	case 3:
+		return genCacheCase(r)
 	}
 	return genRun(r)
 }
